@@ -47,6 +47,7 @@ func c14OutputCfg() *OutputCfg {
 		}
 		oc.Daily = append(oc.Daily, OutCol{Var: c14Echo[k].v, Fmt: f})
 	}
+	oc.Daily = append(oc.Daily, OutCol{Var: "REGENdaily"})
 	return &oc
 }
 
@@ -320,6 +321,58 @@ func execC14(sc *Scenario, env *Env) *Result {
 			if annual < end && ds[len(ds)-1] != lastWant {
 				viol("behaviour", "end-date-differs", fmt.Sprintf("line %d (%s): last daily record %s, effective end date %s (interval %d)", i, lines[i], ds[len(ds)-1].ISO(), end.ISO(), interval), fmt.Sprint(i))
 			}
+		}
+	}
+	// on/off kind: the precipitation correction switch shows in the precipitation the run uses
+	ww := BuildWeather(&w.Weather, w.Cfg.NoneValue, sc.Grid)
+	for i := range sc.Lines {
+		on := w.Cfg.Preco
+		src := "file"
+		for _, a := range sc.Lines[i].Extra {
+			if strings.HasPrefix(a, "CorrectionPrecipitation=") {
+				switch a[len("CorrectionPrecipitation="):] {
+				case "1", "on", "yes", "true":
+					on, src = true, "line"
+				case "0", "off", "no", "false":
+					on, src = false, "line"
+				}
+			}
+		}
+		style := w.Cfg.ResultFormat
+		for _, a := range sc.Lines[i].Extra {
+			if strings.HasPrefix(a, "ResultFileFormat=") {
+				fmt.Sscan(a[len("ResultFileFormat="):], &style)
+			}
+		}
+		st := parseStream(findStream(disk, "V", fmt.Sprintf("L%02d%s", i, w.Plot)), style == 1, 1)
+		ca, cr := st.col("AKTUELL"), st.col("REGENdaily")
+		if ca < 0 || cr < 0 {
+			continue
+		}
+		checked := 0
+		for _, rec := range st.Recs {
+			if len(rec) <= cr || checked >= 5 {
+				break
+			}
+			d, err := ParseOutDate(rec[ca], w.Cfg.DateFormat, w.Cfg.DivideCentury)
+			wr, ok := ww.At(d)
+			if err != nil || !ok || wr.Rain <= 0 {
+				continue
+			}
+			_, m, _ := d.YMD()
+			_, m2, _ := (d + 1).YMD()
+			got, _ := atof(rec[cr])
+			f1, f2 := 1.0, 1.0
+			if on {
+				f1, f2 = precoVals[m-1], precoVals[m2-1]
+			}
+			if !near(got, wr.Rain/10*f1) && !near(got, wr.Rain/10*f2) {
+				viol("precedence", "effective-value-differs:CorrectionPrecipitation", fmt.Sprintf("line %d (%s): on %s the run uses %.6g cm precipitation for %.4g mm of rain; the correction switch is %v by the %s", i, lines[i], d.ISO(), got, wr.Rain, on, src), fmt.Sprint(i))
+				break
+			}
+			checked++
+			res.add("values.checked", 1)
+			res.add("onoff.checked", 1)
 		}
 	}
 	// argument order: a permuted copy of a line gives byte-identical streams
